@@ -690,6 +690,11 @@ def c17_groups(tier, tag='C17'):
                 defines=dict(P, H_STRUCT=None), unwind=14, timeout=600, replay='io'),
           Group(tag + '.bootstrappingkey.sections', 'c17_io.c', 'h_bkstruct',
                 extract=[(IO, 'struct:LweKeySwitchParameters'), (IO, 'write_lweBootstrappingKey'), (IO, 'read_new_lweBootstrappingKey')], defines=dict(P, H_BKSTRUCT=None), unwind=14, timeout=600, replay='io')]
+    if c05:
+        gs.append(Group(tag + '.key_objects.sections', 'c17_io.c', 'h_keyobj',
+                        extract=[(IO, 'struct:LweKeySwitchParameters')] + [(IO, f) for f in ('write_lweKey', 'read_new_lweKey', 'write_tLweKey', 'read_new_tLweKey', 'write_tGswKey', 'read_new_tGswKey',
+                                                                                         'write_lweKeySwitchKey', 'read_new_lweKeySwitchKey')],
+                        defines=dict(P, H_KEYOBJ=None), unwind=14, timeout=600, replay='io'))
     keyfns = ['write_lweKey_content', 'read_lweKey_content', 'write_tGswKey_content', 'read_tGswKey_content']
     if c05:
         keyfns += ['write_tLweKey_content', 'read_tLweKey_content', 'write_lweSample', 'read_lweSample', 'write_tLweSample', 'read_tLweSample']
@@ -773,8 +778,26 @@ def text_format_scan(group):
              % (f, '/'.join(sorted(parsers & {'stold', 'stod', 'strtod', 'strtold', 'atof'})), why))]
 
 
+def wrapper_groups(tag):
+    import wrappers as W
+    try:
+        names = W.wrapper_names()
+    except Exception:
+        names = []
+    return [Group(tag + '.api_wrappers.both_transports', 'c17_wrappers.c', 'h_wrappers', extract=[(IO, w) for w in names],
+                  gen={'wrappers.inc': lambda: W.generate()[0]}, timeout=900, replay='io', instance={'wrappers': len(names)})]
+
+
+def c17_all_groups(tier):
+    return c17_groups(tier, 'C17') + wrapper_groups('C17')
+
+
+def c18_all_groups(tier):
+    return c18_groups(tier, 'C18') + wrapper_groups('C18')
+
+
 def c05_groups(tier):
-    gs = c17_groups(tier, 'C05')
+    gs = c17_groups(tier, 'C05') + wrapper_groups('C05')
     sg = StaticGroup('C05.static.text_double_format', text_format_scan)
     sg.replay = 'iotext'
     gs.append(sg)
@@ -980,14 +1003,14 @@ PROPS = {
             'digits accepted, a fixed number of decimals refuted with a witness, anything else undecided); the round-trip theorem for 17 significant digits and correctly rounding libc printf / strtold are '
             'ASSUMED. std::map ordering, titles, the line parser and stold itself are out of reach of the C front end and NOT covered',
             'stream stubs = assumed contract of the two stream classes (fwrite copies the bytes given, fread fills the bytes requested); virtual dispatch collapsed into one stub (R8); '
-            'FILE / C++-stream wrappers, concatenation of several objects in one stream, FFT-domain samples, functional equivalence of a re-imported key are not under contract',
+            'the 60 FILE / C++-stream wrappers are proved to be pure pass-throughs (api_wrappers group); the adapter classes themselves, concatenation of several objects in one stream, FFT-domain samples, functional equivalence of a re-imported key are not under contract',
             'read_new_lweKey / read_new_tGswKey / read_new_tfheGateBootstrappingParameters are stubs in the key-set harness (they read their parameter text exactly when no parameters are given: their two-line bodies, not re-proved)',
             'table shapes (n, t, basebit, k, l) small enumerated, coefficient dimensions symbolic; loops over the enumerated shapes are unwound completely (unwinding assertions)',
         ],
         'trusted': [],
     },
     'C17': {
-        'groups': c17_groups,
+        'groups': c17_all_groups,
         'level': 'proof',
         'explanation': 'Section structure and binary sections only. (1) The real bodies of the cloud / secret key-set writers, of the cloud key-set reader and of the bootstrapping-key '
                        'writer against section monitors, loop-free, all flag values: the cloud export is exactly [parameter text iff requested] + key-switching parameter text + '
@@ -1002,13 +1025,13 @@ PROPS = {
             '"contains neither the LWE key bits nor the ring key coefficients in any encoding" is decided structurally (no key section, no key object handed to a writer, every exported '
             'byte comes from a row of the key-switching / bootstrapping tables, the tag or the variance); that the ROWS themselves do not leak the keys is the encryption property (C07), not decided here',
             'stream stubs = assumed contract of the two stream classes (fwrite copies the bytes given, fread fills the bytes requested); virtual dispatch collapsed into one stub (R8); '
-            'FILE / C++-stream wrappers (to_Ostream / to_Istream, export_*_toFile / _toStream) are not under contract',
+            'the FILE / C++-stream wrappers (export_*_toFile / _toStream ...) are proved to be pure pass-throughs (api_wrappers group); the adapter classes behind to_Ostream / to_Istream are the assumed stream contract',
             'table shapes (n, t, basebit, k, l) small enumerated, coefficient dimensions n_out, N symbolic up to 4096; loops over the enumerated shapes are unwound completely (unwinding assertions)',
         ],
         'trusted': [],
     },
     'C18': {
-        'groups': c18_groups,
+        'groups': c18_all_groups,
         'level': 'proof',
         'explanation': 'Binary sections only: the eight binary readers against a stream stub with an arbitrary number of remaining bytes, arbitrary content and an '
                        'arbitrary type tag, for both stream flavours: every destination is writable for the requested byte count; a wrong tag never returns '
@@ -1018,7 +1041,7 @@ PROPS = {
             'the text-section parser (new_TextModeProperties_fromIstream, MapTextModeProperties, std::string / std::map / stold) is out of reach of the C front end: titles, '
             'truncated headers and parameter sections are NOT covered -- the property is claimed for the binary sections only',
             'stream stub = assumed contract of CIstream::fread (short read aborts) and StdIstream::fread (short read sets the fail bit), transcribed from tfhe_generic_streams.cpp:68-84; virtual dispatch is collapsed into one stub (R8)',
-            'composite importers (key sets), FFT sample readers and the writers are not under contract',
+            'composite importers and the writers are under contract in C05 / C17, not here; the public wrappers are proved to be pass-throughs (api_wrappers group)',
         ],
         'trusted': [],
     },
